@@ -10,13 +10,13 @@ def retry_probe(chk, n):
     exe = build.build_harness("h_graph")
     for _ in range(n):
         base = [l for l in _graph.history(chk.rng, maxlen=30) if not l.startswith("failin")]
-        forces = [l for l in base if l.startswith("force")]
+        forces = [l for l in base if l.startswith(("force", "gforce"))]
         if not forces:
             continue
         target = chk.rng.choice(forces)
         prefix = []
         for l in base:
-            if l.startswith(("force", "backward", "grad", "pval", "counters", "rndpos")):
+            if l.startswith(("force", "backward", "gforce", "gbackward", "grad", "pval", "counters", "rndpos")):
                 continue
             prefix.append(l)
         clean = prefix + [target]
@@ -65,6 +65,8 @@ def run(chk):
     from props import _state
     _state.run_state(chk)
     _state.run_length_wrap(chk)
+    _state.run_alloc_refused(chk)
+    _state.run_param_batch(chk)
     from props import C16 as _c16
     _c16.run_rejected_adds(chk, 150 if chk.tier == "quick" else 4000)   # rejected Model::add calls leave nothing behind
     from props import C09 as _c09
